@@ -46,6 +46,17 @@ def main():
         res['applies'] = a.returncode == 0
 
         if a.returncode != 0:
+            # the change was written against an earlier commit of /repo
+            # (repairs have moved a few context lines since): try again with
+            # patch(1) and a little fuzz
+            a2 = subprocess.run(['patch', '-p1', '--fuzz=3', '-s', '-i',
+                                 os.path.join(d, 'patch.diff')],
+                                cwd=scratch, stdout=subprocess.PIPE,
+                                stderr=subprocess.STDOUT)
+            res['applies'] = a2.returncode == 0
+            res['applied_with_fuzz'] = a2.returncode == 0
+
+        if not res['applies']:
             print(a.stdout.decode())
             print(json.dumps(res))
             return 2
